@@ -82,6 +82,19 @@ impl Out {
 }
 
 static IN_GUARD: std::sync::atomic::AtomicBool = std::sync::atomic::AtomicBool::new(false);
+// A second, independent PRNG stream for generator classes added later: drawing from it leaves the main stream (and
+// so every case the earlier evaluations exercised) unchanged.
+static AUX: std::sync::atomic::AtomicU64 = std::sync::atomic::AtomicU64::new(0x9E3779B97F4A7C15);
+fn aux_next() -> u64 {
+    use std::sync::atomic::Ordering::Relaxed;
+    let mut z = AUX.load(Relaxed).wrapping_add(0x9E3779B97F4A7C15);
+    AUX.store(z, Relaxed);
+    z = (z ^ (z >> 30)).wrapping_mul(0xBF58476D1CE4E5B9);
+    z = (z ^ (z >> 27)).wrapping_mul(0x94D049BB133111EB);
+    z ^ (z >> 31)
+}
+fn aux_below(n: u64) -> u64 { aux_next() % n }
+
 fn guard<T>(f: impl FnOnce() -> T) -> Option<T> {
     use std::sync::atomic::Ordering::SeqCst;
     IN_GUARD.store(true, SeqCst);
@@ -238,6 +251,42 @@ fn gen_block_family(rng: &mut Rng, out: &mut Out) -> (Vec<bool>, Vec<usize>) {
 }
 
 fn gen_bits_raw(rng: &mut Rng, len: usize, out: &mut Out) -> Vec<bool> {
+    // the main stream is consumed exactly as before; the classes added later draw from the auxiliary stream only
+    let main = gen_bits_raw_main(rng, len, out);
+    let mut bits = vec![false; len];
+    match aux_below(13) {
+        11 => {
+            // a few tight clusters in a long, otherwise empty vector (one of them often near the start): many
+            // elements in one Elias-Fano bucket, queries before / inside / after a cluster
+            out.stat("bits:clusters");
+            let k = 1 + aux_below(4);
+            for c in 0..k {
+                if len < 64 { break; }
+                let size = 10 + aux_below(35) as usize;
+                let start = if c == 0 && aux_below(2) == 0 { aux_below(200.min(len as u64 - 50)) as usize } else { aux_below(len as u64 - 50) as usize };
+                for j in start..(start + size).min(len) { bits[j] = aux_below(10) != 0; }
+            }
+            bits
+        }
+        12 => {
+            // clustered 1024-blocks: repetitions of a few ones, a long gap (inside one sub-block), then the rest of the
+            // block densely packed -- dense blocks whose sub-block spans are very uneven
+            out.stat("bits:clustered-blocks");
+            let a = 1 + aux_below(32) as usize;
+            let gap = 3000 + aux_below(3000) as usize;
+            let mut i = 0;
+            while i + a + gap + 1024 <= len {
+                for j in i..i + a { bits[j] = true; }
+                for j in i + a + gap..i + a + gap + (1024 - a) { bits[j] = true; }
+                i += a + gap + (1024 - a);
+            }
+            bits
+        }
+        _ => main,
+    }
+}
+
+fn gen_bits_raw_main(rng: &mut Rng, len: usize, out: &mut Out) -> Vec<bool> {
     let class = rng.below(11);
     let mut bits = vec![false; len];
     match class {
@@ -622,9 +671,9 @@ fn bitvec_reads(bv: &BitVector, rng: &mut Rng, out: &mut Out, tier: &str) {
         out.op(17, &[k], r_optnum(|| bv.select0(k)), "select0");
     }
     if n <= 5000 {
-        let v: Vec<usize> = bv.iter().map(|b| b as usize).collect();
+        let v: Vec<usize> = bv.iter().take(n + 8).map(|b| b as usize).collect();
         out.op(24, &[], r_nums(&v), "iter");
-        let rebuilt = BitVector::from_bits(bv.iter());
+        let rebuilt = BitVector::from_bits(bv.iter().take(n + 8));
         out.op(25, &[], format!("b:{}", (rebuilt == *bv) as u8), "eq rebuilt");
     }
     // Iter: next / size_hint interleavings, incl. after exhaustion
@@ -632,7 +681,10 @@ fn bitvec_reads(bv: &BitVector, rng: &mut Rng, out: &mut Out, tier: &str) {
         let mut it = bv.iter();
         out.op(40, &[], "K".into(), "iter()");
         let mut steps = 0;
+        let mut calls = 0;
         loop {
+            calls += 1;
+            if calls > n + 12 { break; }          // an iterator that never ends shows as extra elements, not as a hang
             if rng.chance(1, 3) {
                 let (lo, hi) = it.size_hint();
                 out.op(42, &[], r_nums(&[lo, hi.unwrap_or(usize::MAX)]), "size_hint");
@@ -771,8 +823,9 @@ fn kind_rank9(rng: &mut Rng, out: &mut Out, id: &str, tier: &str) {
         Rank9Sel::build_from_bits(bits.iter().cloned(), wr_flag, h1, h0).unwrap()
     } else {
         let mut x = Rank9Sel::from_bits(bits.iter().cloned());
-        if h1 { x = x.select1_hints(); }
-        if h0 { x = x.select0_hints(); }
+        // (asking for an index twice must change nothing: answers, equality, size)
+        if h1 { x = x.select1_hints(); if aux_below(3) == 0 { x = x.select1_hints(); } }
+        if h0 { x = x.select0_hints(); if aux_below(3) == 0 { x = x.select0_hints(); } }
         x
     });
     let x = match built {
@@ -812,8 +865,8 @@ fn kind_darray(rng: &mut Rng, out: &mut Out, id: &str, tier: &str) {
         DArray::build_from_bits(bits.iter().cloned(), wr, s1_flag, ws0).unwrap()
     } else {
         let mut x = DArray::from_bits(bits.iter().cloned());
-        if wr { x = x.enable_rank(); }
-        if ws0 { x = x.enable_select0(); }
+        if wr { x = x.enable_rank(); if aux_below(3) == 0 { x = x.enable_rank(); } }
+        if ws0 { x = x.enable_select0(); if aux_below(3) == 0 { x = x.enable_select0(); } }
         x
     });
     let x = match built {
@@ -855,7 +908,7 @@ fn kind_sarray(rng: &mut Rng, out: &mut Out, id: &str, tier: &str) {
         SArray::build_from_bits(bits.iter().cloned(), wr, s1_flag, false).unwrap()
     } else {
         let mut x = SArray::from_bits(bits.iter().cloned());
-        if wr { x = x.enable_rank(); }
+        if wr { x = x.enable_rank(); if aux_below(3) == 0 { x = x.enable_rank(); } }
         x
     });
     let x = match built {
@@ -1164,7 +1217,7 @@ fn kind_efb(rng: &mut Rng, out: &mut Out, id: &str, tier: &str) {
         }
     }
     let with_rank = rng.chance(3, 4);
-    let ef = guard(AssertUnwindSafe(|| { let e = b.build(); if with_rank { e.enable_rank() } else { e } }));
+    let ef = guard(AssertUnwindSafe(|| { let e = b.build(); if with_rank { let e = e.enable_rank(); if aux_below(3) == 0 { e.enable_rank() } else { e } } else { e } }));
     let ef = match ef {
         None => { out.op(52, &[with_rank as usize], "P".into(), "build"); out.end(); return; }
         Some(e) => { out.op(52, &[with_rank as usize], "K".into(), "build"); e }
@@ -1295,7 +1348,7 @@ fn kind_cv(rng: &mut Rng, out: &mut Out, id: &str, tier: &str) {
     for &p in &boundary_args(rng, n, &extra, 8) {
         out.op(78, &[p], r_optnum(|| cv.get_int(p)), "get_int");
     }
-    let all: Vec<usize> = cv.iter().collect();
+    let all: Vec<usize> = cv.iter().take(cv.len() + 8).collect();
     out.op(79, &[], r_nums(&all), "iter");
     if w > 0 {
         let mut other = CompactVector::new(w).unwrap();
@@ -1306,10 +1359,14 @@ fn kind_cv(rng: &mut Rng, out: &mut Out, id: &str, tier: &str) {
         let mut it = cv.iter();
         out.op(40, &[], "K".into(), "iter()");
         let mut after = 0;
-        while after < 3 {
+        let mut steps = 0;
+        while after < 3 && steps < all.len() + 12 {
+            steps += 1;
             if rng.chance(1, 3) {
-                let (lo, hi) = it.size_hint();
-                out.op(42, &[], r_nums(&[lo, hi.unwrap_or(usize::MAX)]), "size_hint");
+                match guard(AssertUnwindSafe(|| it.size_hint())) {
+                    None => { out.op(42, &[], "P".into(), "size_hint"); break; }
+                    Some((lo, hi)) => out.op(42, &[], r_nums(&[lo, hi.unwrap_or(usize::MAX)]), "size_hint"),
+                }
             }
             let x = it.next();
             out.op(41, &[], match x { None => "-".into(), Some(q) => format!("n:{:x}", q) }, "next");
@@ -1450,10 +1507,10 @@ fn iter_provided<I: Iterator>(it: Option<I>, fmt: &dyn Fn(I::Item) -> String, st
         }
     }
     if rng.chance(1, 2) {
-        let r = guard(AssertUnwindSafe(move || it.count()));
+        let r = guard(AssertUnwindSafe(move || it.take(len + 8).count()));
         out.op(46, &[nx], match r { None => "P".into(), Some(c) => format!("n:{:x}", c) }, "count");
     } else {
-        let r = guard(AssertUnwindSafe(move || it.last()));
+        let r = guard(AssertUnwindSafe(move || it.take(len + 8).last()));
         out.op(47, &[nx], match r { None => "P".into(), Some(None) => "-".into(), Some(Some(x)) => fmt(x) }, "last");
     }
 }
@@ -2007,9 +2064,9 @@ fn kind_exhaustive_bvhist(out: &mut Out, tier: &str) {
                 let n = bv.len();
                 out.op(10, &[], r_num(|| bv.len()), "len");
                 out.op(22, &[], r_num(|| bv.num_ones()), "num_ones");
-                let v: Vec<usize> = bv.iter().map(|b| b as usize).collect();
+                let v: Vec<usize> = bv.iter().take(n + 8).map(|b| b as usize).collect();
                 out.op(24, &[], r_nums(&v), "iter");
-                let rebuilt = BitVector::from_bits(bv.iter());
+                let rebuilt = BitVector::from_bits(bv.iter().take(n + 8));
                 out.op(25, &[], format!("b:{}", (rebuilt == bv) as u8), "eq rebuilt");
                 for &p in &[0usize, 59, 63, 64, n.wrapping_sub(1), n, usize::MAX] {
                     out.op(12, &[p, 8], r_optnum(|| bv.get_bits(p, 8)), "get_bits");
@@ -2064,7 +2121,7 @@ fn kind_exhaustive_cvhist(out: &mut Out, tier: &str) {
                 for &p in &[0usize, 1, n.wrapping_sub(1), n, usize::MAX, (usize::MAX / w.max(1)).wrapping_add(1)] {
                     out.op(78, &[p], r_optnum(|| cv.get_int(p)), "get_int");
                 }
-                let all: Vec<usize> = cv.iter().collect();
+                let all: Vec<usize> = cv.iter().take(cv.len() + 8).collect();
                 out.op(79, &[], r_nums(&all), "iter");
                 let mut other = CompactVector::new(w).unwrap();
                 other.extend(all.iter().cloned()).unwrap();
@@ -2383,11 +2440,13 @@ fn sweep_steep(out: &mut Out, id: &str, sid: u64) {
 fn sweep_aligned(kind: u32, out: &mut Out, id: &str, sid: u64) {
     let mut combo = 0u64;
     for &len in &[64usize, 128, 192, 512, 576, 1024] {
-        for pat in 0..5usize {
+        for pat in 0..7usize {
             combo += 1;
             if combo % 2 != sid % 2 { continue; }
+            // 5 / 6: a single one (zero) early in the last word of an otherwise empty (full) vector
             let bits: Vec<bool> = (0..len).map(|i| match pat {
-                0 => false, 1 => true, 2 => i % 2 == 0, 3 => i < len - 64, _ => i >= len - 64 || i % 7 == 0 }).collect();
+                0 => false, 1 => true, 2 => i % 2 == 0, 3 => i < len - 64, 4 => i >= len - 64 || i % 7 == 0,
+                5 => i == len - 52, _ => i != len - 52 }).collect();
             let ones = bits.iter().filter(|&&b| b).count();
             if kind == 4 && ones == 0 { continue; }
             out.case(&format!("{}a{}p{}", id, len, pat));
@@ -2429,6 +2488,80 @@ fn sweep_aligned(kind: u32, out: &mut Out, id: &str, sid: u64) {
         }
     }
     out.stat("sweep:aligned-lengths");
+}
+
+// empty CompactVectors through every construction path (default and from_slice(&[]) have width 0): full read-back
+// and iteration, every call guarded and capped
+fn sweep_cv_empty(out: &mut Out, id: &str) {
+    let mut own = Rng(0x5EED_C0DE);
+    let rng = &mut own;
+    for variant in 0..5usize {
+        out.case(&format!("{}e{}", id, variant));
+        out.op(1006, &[], "K".into(), "CompactVector::default");
+        let made: Option<CompactVector> = match variant {
+            0 => Some(CompactVector::default()),
+            1 => { out.data(&[]); match guard(|| CompactVector::from_slice::<usize>(&[])) {
+                     Some(Ok(v)) => { out.op(73, &[], "K".into(), "from_slice"); Some(v) }
+                     Some(Err(_)) => { out.op(73, &[], "E".into(), "from_slice"); None }
+                     None => { out.op(73, &[], "P".into(), "from_slice"); None } } }
+            2 | 3 => { let w = if variant == 2 { 1 } else { 64 }; match guard(|| CompactVector::new(w)) {
+                     Some(Ok(v)) => { out.op(70, &[w], "K".into(), "new"); Some(v) }
+                     Some(Err(_)) => { out.op(70, &[w], "E".into(), "new"); None }
+                     None => { out.op(70, &[w], "P".into(), "new"); None } } }
+            _ => match guard(|| CompactVector::with_capacity(0, 3)) {
+                     Some(Ok(v)) => { out.op(71, &[0, 3], "K".into(), "with_capacity"); Some(v) }
+                     Some(Err(_)) => { out.op(71, &[0, 3], "E".into(), "with_capacity"); None }
+                     None => { out.op(71, &[0, 3], "P".into(), "with_capacity"); None } },
+        };
+        if let Some(cv) = made {
+            out.op(10, &[], r_num(|| cv.len()), "len");
+            out.op(77, &[], r_num(|| cv.width()), "width");
+            for p in 0..2usize { out.op(78, &[p], r_optnum(|| cv.get_int(p)), "get_int"); }
+            let all: Option<Vec<usize>> = guard(|| cv.iter().take(8).collect());
+            out.op(79, &[], match &all { None => "P".into(), Some(v) => r_nums(v) }, "iter");
+            let mut it = cv.iter();
+            out.op(40, &[], "K".into(), "iter()");
+            for step in 0..4 {
+                if step != 1 {
+                    match guard(AssertUnwindSafe(|| it.size_hint())) {
+                        None => { out.op(42, &[], "P".into(), "size_hint"); break; }
+                        Some((lo, hi)) => out.op(42, &[], r_nums(&[lo, hi.unwrap_or(usize::MAX)]), "size_hint"),
+                    }
+                }
+                match guard(AssertUnwindSafe(|| it.next())) {
+                    None => { out.op(41, &[], "P".into(), "next"); break; }
+                    Some(x) => out.op(41, &[], match x { None => "-".into(), Some(q) => format!("n:{:x}", q) }, "next"),
+                }
+            }
+            iter_provided(Some(cv.iter()), &|q: usize| format!("n:{:x}", q), (40, vec![]), 41, 0, rng, out);
+        }
+        out.end();
+    }
+    out.stat("sweep:empty-compact-vectors");
+}
+
+// wavelet matrices whose layers consist of the words 1 << 63, !(1 << 63), 1, !1: a constant sequence of 130 symbols
+// with one outlier at position 63 or 64, every backing
+fn sweep_wm_words(out: &mut Out, id: &str, tier: &str, sid: u64) {
+    let mut own = Rng(0x5EED_0A7E);
+    let mut combo = 0u64;
+    for &(c, o) in &[(1usize, 2usize), (0, 1), (2, 1), (3, 2), (1, 0)] {
+        for &p in &[63usize, 64] {
+            for backing in 0..3usize {
+                combo += 1;
+                if combo % 2 != sid % 2 { continue; }
+                let mut vals = vec![c; 130];
+                vals[p] = o;
+                let cid = format!("{}w{}o{}p{}b{}", id, c, o, p, backing);
+                match backing {
+                    0 => wm_case::<Rank9Sel>(0, &vals, &mut own, out, &cid, tier),
+                    1 => wm_case::<DArray>(1, &vals, &mut own, out, &cid, tier),
+                    _ => wm_case::<BitVector>(2, &vals, &mut own, out, &cid, tier),
+                }
+            }
+        }
+    }
+    out.stat("sweep:wm-boundary-words");
 }
 
 // kind 26: DArray exact-span sweep (deep / thorough searches): lead x ones-before-the-far-one x distance x view,
@@ -2576,6 +2709,7 @@ fn main() {
         let mut rng = Rng(seed.wrapping_mul(0x9E3779B97F4A7C15).wrapping_add(k as u64 * 1_000_003));
         // ./check uses the seeds base*1000 + 100*build + i: a shard number 0..7 within one run
         let sid = ((seed / 100) % 10) * 2 + (seed % 100) % 2;
+        AUX.store(seed.wrapping_mul(0xD1B54A32D192ED03).wrapping_add(k as u64 * 7_919), std::sync::atomic::Ordering::Relaxed);
         for i in 0..cases {
             let id = format!("k{}s{}c{}", k, seed, i);
             match k {
@@ -2584,11 +2718,11 @@ fn main() {
                 3 => { if i == 0 { sweep_aligned(3, &mut out, &id, sid); } kind_darray(&mut rng, &mut out, &id, tier) }
                 4 => { if i == 0 { sweep_aligned(4, &mut out, &id, sid); } kind_sarray(&mut rng, &mut out, &id, tier) }
                 5 => { if i == 0 { sweep_msb(5, &mut out, &id, sid); } kind_efb(&mut rng, &mut out, &id, tier) }
-                6 => { if i == 0 { sweep_msb(6, &mut out, &id, sid); } kind_cv(&mut rng, &mut out, &id, tier) }
+                6 => { if i == 0 { sweep_msb(6, &mut out, &id, sid); sweep_cv_empty(&mut out, &id); } kind_cv(&mut rng, &mut out, &id, tier) }
                 7 => { if i == 0 { sweep_msb(7, &mut out, &id, sid); sweep_steep(&mut out, &id, sid); } kind_dacsopt(&mut rng, &mut out, &id, tier) }
                 8 => { if i == 0 { sweep_msb(8, &mut out, &id, sid); } kind_dacsbyte(&mut rng, &mut out, &id, tier) }
                 9 => kind_psef(&mut rng, &mut out, &id, tier),
-                10 => kind_wm(&mut rng, &mut out, &id, tier),
+                10 => { if i == 0 { sweep_wm_words(&mut out, &id, tier, sid); } kind_wm(&mut rng, &mut out, &id, tier) }
                 11 => kind_broadword(&mut rng, &mut out, &id, tier),
                 12 => kind_ef_from_bits(&mut rng, &mut out, &id, tier),
                 13 => kind_bigvec(&mut rng, &mut out, &id, tier),
